@@ -202,7 +202,10 @@ CE(S, e, ln) ==
       [] e.k \in {"superinv", "superget"} ->
            LET S0 == IF S.classes = <<>> \/ ~S.classes[Len(S.classes)] THEN Err(S) ELSE S
                k == AddConst(S0, KStr(e.m))
-               recv == NamedVar(k.s, Cur(k.s).locals[1].name)
+               \* the receiver: slot zero of the innermost enclosing method (self / Self), captured like any variable by nested functions
+               named == {j \in 1..Len(k.s.cs) : k.s.cs[j].locals[1].name # ""}
+               rname == IF named = {} THEN "" ELSE k.s.cs[CHOOSE j \in named : \A q \in named : q <= j].locals[1].name
+               recv == NamedVar(k.s, rname)
                S1 == EmitVarOp(recv.s, recv.get, recv.a, ln)
                S2 == IF e.k = "superinv" THEN CEs(S1, e.args, 1, ln) ELSE S1
                sup == NamedVar(S2, "super")
